@@ -258,7 +258,9 @@ class C01(core.PropertyCheck):
     def run_impl(self, case):
         kind = case["kind"]
         if kind == "doc":
-            r = c01run.run(case)
+            # in the main process (corpus, shrinking, confirmation, --replay) each parse runs in a child that can be killed; the
+            # workers of the case stream are watched - and killed, if need be - by the harness core
+            r = c01run.run(case, stream=True) if core.IN_STREAM_WORKER else c01run.run_isolated(case)
             r.pop("tb", None)
             return r
         if kind == "enum":
@@ -452,8 +454,21 @@ class C01(core.PropertyCheck):
             return case["text"] + "|" + str(case["mode"]) + "|" + str(case["domain"]) if case["text"].strip() else None
         return json.dumps(case, sort_keys=True)
 
+    _BLANK = {"shape": [], "diag_classes": [], "max_per_line": 0, "checks": 0, "corrections": 0}
+
+    def killed_impl(self, case):
+        # the worker did not come back - not even to the watchdog signals, which only fire between two bytecodes: the interpreter
+        # was inside one C call (a regular expression that backtracks without end is the usual one)
+        return {**self._BLANK, "exc": "Hang", "where": "killed", "detail": "", "ok_shape": False,
+                "monitor": [f"no answer within {core.CASE_KILL_S:.0f} s of wall time, not even to the watchdog signals (the interpreter sat inside one C call)"]}
+
+    def skipped_impl(self, case):
+        return {**self._BLANK, "exc": None, "skipped_after_hangs": True, "ok_shape": True, "monitor": [], "err": None}
+
     def branch_tags(self, case, model, impl):
         kind = case["kind"]
+        if kind == "doc" and impl.get("skipped_after_hangs"):
+            return ["doc:not-parsed-after-a-dozen-hangs"]
         if kind != "doc":
             t = [kind + (":" + case["what"] if kind == "enum" else "")]
             if impl.get("err"):
